@@ -258,7 +258,9 @@ EmitTok(m, leaf, kind, u) ==
   LET k == CHOOSE k \in DOMAIN m.emits : m.emits[k].leaf = leaf /\ m.emits[k].kind = kind /\ m.emits[k].u = u
   IN <<m.emits[k].errs[1][1], m.emits[k].errs[1][2]>>
 LastOfLeaf(m, leaf) ==
-  LET S == {k \in DOMAIN m.emits : m.emits[k].leaf = leaf /\ m.emits[k].u = 0} IN   \* directive-level events
+  LET S == {k \in DOMAIN m.emits : m.emits[k].leaf = leaf /\ m.emits[k].u = 0 /\
+                                    SubSeq(m.emits[k].kind, 1, 4) # "Task"} IN   \* directive-level events (with
+                                    \* -auto-instrument task events of implied names have u = 0 too)
   IF S = {} THEN "" ELSE m.emits[CHOOSE k \in S : \A j \in S : j <= k].kind
 
 OutcomeKinds == {"TaskSuccess", "TaskError", "TaskErrorRecovered", "TaskPanic", "TaskPanicRecovered"}
@@ -303,7 +305,29 @@ OnOver(m, e) ==
                      ELSE {V(m, e, "C18", "task not invoked in a nil-returning directive without exactly one TaskSkipped")})
                   ELSE {}
           : u \in {v \in Units(p) : v.kind \in {"task", "ptask"}}}
-  IN Add(m, UNION {LeafBad(l) : l \in 1..p.leaves})
+      \* -auto-instrument: tasks without an explicit cff.Instrument get an implied name (file.line), which
+      \* identifies the task but is not ours to predict; whichever of them are instrumented (cff instruments
+      \* those that are listed after cff.InstrumentFlow - an order dependence no listed property rules out),
+      \* each implied name stands for one task: per name exactly one outcome event and one TaskDone, or one
+      \* TaskSkipped, never more tasks than were invoked / not invoked
+      Implied == {u \in Units(p) : u.kind \in {"task", "ptask"} /\ ~u.instr}
+      AutoBad(l) ==
+        IF ~p.autoins \/ \E u \in Implied : m.st[<<u.id, -1>>] = "running" THEN {}
+        ELSE LET Idx == {k \in DOMAIN m.emits : m.emits[k].leaf = l /\ m.emits[k].u = 0 /\ SubSeq(m.emits[k].kind, 1, 4) = "Task"}
+                 Names == {m.emits[k].name : k \in Idx}
+                 N(nm, K) == Cardinality({k \in Idx : m.emits[k].name = nm /\ m.emits[k].kind \in K})
+                 doneNames == {nm \in Names : N(nm, {"TaskDone"}) > 0}       \* the task function was called and returned
+                 skipNames == {nm \in Names : N(nm, {"TaskSkipped"}) > 0}
+             IN (IF \A nm \in doneNames : N(nm, OutcomeKinds) = 1 /\ N(nm, {"TaskDone"}) = 1 /\ (nilret => N(nm, {"TaskSkipped"}) = 0) THEN {}
+                 ELSE {V(m, e, "C18", "with -auto-instrument: an invoked task (implied name) without exactly one outcome event and one TaskDone")})
+                \* without TaskDone the function was not called: the only outcome event possible is the predicate's panic
+                \cup (IF \A nm \in Names \ doneNames : N(nm, OutcomeKinds \ {"TaskPanic", "TaskPanicRecovered"}) = 0 /\ N(nm, OutcomeKinds) <= 1 THEN {}
+                      ELSE {V(m, e, "C18", "with -auto-instrument: outcome events for a task (implied name) that was not invoked")})
+                \cup (IF \A nm \in skipNames : N(nm, {"TaskSkipped"}) = 1 THEN {}
+                      ELSE {V(m, e, "C18", "with -auto-instrument: more than one TaskSkipped for an implied task name")})
+                \cup (IF Cardinality(doneNames) <= Cardinality({u \in Implied : m.cnt[<<u.id, -1>>] = 1}) THEN {}
+                      ELSE {V(m, e, "C18", "with -auto-instrument: TaskDone for more implied tasks than were invoked")})
+  IN Add(m, UNION {LeafBad(l) \cup AutoBad(l) : l \in 1..p.leaves})
 
 ----------------------------------------------------------------------------
 MonStep(m, e) ==
